@@ -32,6 +32,8 @@ func init() {
 			{Name: "length", Run: runLength},
 			{Name: "sort", Run: runSort},
 			{Name: "hist", Run: runHist},
+			{Name: "steporder", Run: runStepOrder},
+			{Name: "attrs", Run: runAttrs},
 			{Name: "stack", Run: runStack},
 			{Name: "access", Run: runAccess},
 			{Name: "reduce", Run: runReduce},
